@@ -29,6 +29,11 @@ def decoys(tier):
     # macros that are not configured (only log::info is)
     for name in ("other", "my_info", "info_", "infos", "in", "slog::info", "log2::info", "tracing::info", "crate::log::info", "log::infos", "log::warn", "Info", "INFO"):
         d.append(("unconfigured macro %s" % name, 'fn f() {\n    %s!("decoy");\n}\n' % name))
+    # a different module path written non-contiguously (rustc accepts whitespace and comments between path segments)
+    for pathtxt in ("metrics :: info", "metrics::  info", "metrics ::info", "crate::metrics::\n        info", "audit::/* v2 */info", "syslog::info", "catalog::info", "applog::info", "xlog::info"):
+        d.append(("different module path %r" % pathtxt, 'fn f() {\n    %s!("decoy");\n}\n' % pathtxt))
+    # a carriage return inside a line comment does not end the comment (rustc)
+    d.append(("line comment containing a bare CR", 'fn f() {}\n// note\r info!("decoy");\nfn g() {}\n'))
     # configured name without a literal message
     for args in ("x", "x, y", "&format!(\"a\")", "MSG", "target: TARGET, x", "concat!(\"a\", \"b\")"):
         d.append(("no literal message", "fn f() {\n    info!(%s);\n}\n" % args))
